@@ -27,6 +27,7 @@
 #include "simulation_initializer.hpp"
 #include "poisson_sampling.hpp"
 #include <unistd.h>
+#include <omp.h>
 #include <cxxabi.h>
 #include <typeinfo>
 #include <mutex>
@@ -635,5 +636,54 @@ static int cmd_translate_init(const Args& a) {
     return 0;
 }
 static Reg r_translate_init("translate_init", cmd_translate_init);
+
+// ------------------------------------------------------------------------------------------------
+// C13 — one input that is not a cell among valid ones, the cells initialised by several threads.  The initializer treats the cells of a file in a parallel
+// loop; the failure of ANY of them (whichever thread meets it, wherever it sits in the file) must end the initialisation with an initialisation exception:
+// the caller must never receive the list (with a null or an invalid entry in it).
+static std::string among_valid_case(const Args& a, long i, const std::string& path) {
+    Rng g(a.seed, (uint64_t)i, 0x13b); Case cs(i);
+    const int ncell = g.range(3, 12), bad_at = g.range(0, ncell - 1), bad_kind = std::vector<int>{1, 3, 4, 0}[g.range(0, 3)]; const bool tri_on = g.coin(0.3); const double scale = g.logu(1e-6, 1e1);
+    std::vector<Poly> cells; std::vector<int> type_ids;
+    for (int k = 0; k < ncell; k++) { Poly m; if (k == bad_at) m = make_bad(bad_kind, g); else { m = make_family(g.range(0, 4), g); triangulate_faces(m, g, 1.0); }
+        if (g.coin(0.5)) protate(m, gen::rot_random(g)); pscale(m, scale, scale, scale); ptranslate(m, 6.0 * scale * k, 0, 0); type_ids.push_back(g.range(0, 4)); cells.push_back(m); }
+    const std::string text = vtk_text(cells, type_ids, {});
+    { FILE* f = fopen(path.c_str(), "w"); if (!f) { cs.v = "inconclusive"; cs.msg = "cannot write " + path; return cs.line(); } fputs(text.c_str(), f); fclose(f); }
+    global_simulation_parameters sp; sp.output_folder_path_ = ""; sp.input_mesh_path_ = path; sp.perform_initial_triangulation_ = tri_on; sp.enable_edge_swap_operation_ = true;
+    const double lmin = 0.25 * scale; sp.damping_coefficient_ = 1; sp.simulation_duration_ = 1; sp.sampling_period_ = 1; sp.time_step_ = 1e-3; sp.min_edge_len_ = lmin; sp.contact_cutoff_adhesion_ = lmin; sp.contact_cutoff_repulsion_ = lmin;
+    std::vector<cell_type_param_ptr> types; for (int t = 0; t < 5; t++) types.push_back(gen::default_cell_type(3, (short)t));
+    { std::lock_guard<std::mutex> lk(g_rng_mu); g_rng_base = hash_combine(hash_combine(a.seed, (uint64_t)i), 0xC13BULL); g_rng_ctr.clear(); } verif::get().rng_seed = rng_sink;
+    omp_set_num_threads(a.threads); std::vector<cell_ptr> out; std::string outcome, what;
+    try { simulation_initializer init(sp, types, false); out = init.get_cell_lst(); outcome = "cells"; }
+    catch (const intialization_exception& e) { outcome = "initialization_exception"; }
+    catch (const std::exception& e) { outcome = "other_exception"; what = demangled(typeid(e).name()) + ": " + e.what(); }
+    unlink(path.c_str());
+    const std::string kind = BAD_KINDS[bad_kind];
+    if (outcome == "other_exception") cs.viol("wrong_exception_type:among_valid_cells", what);
+    else if (outcome == "cells" && !tri_on) { long nulls = 0; for (auto& p : out) if (!p) nulls++;
+        cs.viol("accepted_input_that_is_not_a_cell:" + kind + ":among_valid_cells", "initial triangulation is disabled, cell " + std::to_string(bad_at) + " of " + std::to_string(ncell) + " in the file is no closed connected genus-0 2-manifold (" + kind + "), the cells are initialised by " + std::to_string(a.threads) + " threads - and the caller received a list of " + std::to_string(out.size()) + " cells (" + std::to_string(nulls) + " null entries) instead of an initialisation exception"); }
+    else if (outcome == "cells") { for (size_t k = 0; k < out.size() && cs.v != "viol"; k++) { if (!out[k]) { cs.viol("null_cell:among_valid_cells", "a null cell pointer was returned at position " + std::to_string(k)); break; } rmu::Inv r = rmu::check_cell(*out[k], true, nullptr, false); if (!r.ok) cs.viol("invalid_cell:" + r.key + ":among_valid_cells", "returned cell " + std::to_string(k) + ": " + r.msg); } }
+    cs.nontrivial = true; cs.sig = hash_combine(hash_str(text), (uint64_t)bad_at * 7 + (uint64_t)tri_on);
+    cs.obs.i("cells_in_file", ncell).i("invalid_cell_at", bad_at).s("invalid_kind", kind).b("triangulation", tri_on).s("outcome", outcome).i("threads", a.threads);
+    return std::string("b:among_valid:") + (tri_on ? "triangulation_on" : "triangulation_off") + "=1;b:among_valid_outcome:" + outcome + "=1;b:among_valid_position_" + (bad_at == 0 ? "first" : bad_at == ncell - 1 ? "last" : "middle") + "=1;\n" + cs.line();
+}
+static int cmd_reconstruct_among(const Args& a) {
+    Agg agg; agg.max_samples = 4; char cwd[4096]; if (!getcwd(cwd, sizeof cwd)) { perror("getcwd"); return 2; }
+    for (long i = a.first; i < a.first + a.cases; i++) {
+        if (!a.mine(i)) continue;
+        const std::string path = std::string(cwd) + "/c13a_input_" + std::to_string((long)getpid()) + "_" + std::to_string(i) + ".vtk";
+        IsoResult r = run_isolated([&]() { return among_valid_case(a, i, path); }, a.getd("cpu_limit", 600), a.getd("cpu_limit", 600) * 3); unlink(path.c_str()); agg.evaluations++;
+        if (!r.completed) { emit(crash_line(i, r)); agg.bin(r.timeout ? "timeout" : "crash"); continue; }
+        const std::string& out = r.line; size_t nl = out.find('\n'); std::string meta = nl == std::string::npos ? "" : out.substr(0, nl), L = nl == std::string::npos ? out : out.substr(nl + 1);
+        for (size_t p = 0; p < meta.size();) { size_t e = meta.find(';', p); if (e == std::string::npos) break; std::string kv = meta.substr(p, e - p); p = e + 1; size_t eq = kv.rfind('='); if (eq == std::string::npos || kv.size() < 3) continue; agg.bin(kv.substr(2, eq - 2), atol(kv.substr(eq + 1).c_str())); }
+        if (L.find("\"nt\":true") != std::string::npos) { agg.nontrivial++; size_t p = L.find("\"sig\":\""); if (p != std::string::npos) agg.sigs[strtoull(L.substr(p + 7, 16).c_str(), nullptr, 16)] = 1; }
+        if (L.find("\"v\":\"viol\"") != std::string::npos) { agg.viol_total++; if (agg.viol_total <= (long)agg.max_viol) emit(L); }
+        else if (L.find("\"v\":\"inconclusive\"") != std::string::npos) emit(L);
+        else if (agg.samples.size() < agg.max_samples) agg.samples.push_back(L);
+    }
+    agg.flush(a.shard_i);
+    return 0;
+}
+static Reg r_reconstruct_among("reconstruct_among", cmd_reconstruct_among);
 
 }  // namespace
